@@ -2,7 +2,7 @@
 specification) and a conformance half (the specification bound to the code
 built from /repo's working tree); it reports nothing until both have run."""
 import json, os, time, shutil, glob, tempfile
-from vrun import (Machinery, Verdict, build_vh, build_server, log, model_check, run_vh, run_tlc, sany, scratch,
+from vrun import (Machinery, Verdict, build_vh, build_server, log, model_check, run_vh, run_tlc, run_apalache, sany, scratch,
                   seed, trace_context, validate_trace, write_evidence, SPEC, OUT, VERIF, REPO, GOENV, GO)
 
 CHECKS = {}
@@ -230,6 +230,39 @@ def index_models(tier, cov, which):
         r = model_check(f"Cache/{c}", "MC_Cache.tla", f"MC_Cache_{c}.cfg", workers=16,
                         timeout=3000 if tier == "thorough" else 600)
         add_model(cov, f"MC_Cache_{c}", r, desc)
+    if which in ("C03", "C17"):
+        unbounded_index(tier, cov)
+
+
+def unbounded_index(tier, cov):
+    """The accounting core over unbounded integers: LruInd.tla's IndInv is inductive (Apalache), and Lru.tla -
+    the module recorded executions are validated against - refines LruInd (TLC, LruIndRefine.tla)."""
+    if tier == "quick":
+        cfgs = [("LruIndRefine_q.cfg", "2 keys, max 3 blocks, 4 sizes, no hard limit, <= 3 elements ever, <= 2 queued")]
+    else:
+        cfgs = [("LruIndRefine.cfg", "2 keys, max 3 blocks, 5 sizes, no hard limit, <= 3 elements ever, <= 2 queued"),
+                ("LruIndRefine_hard.cfg", "the same with a hard limit of 4 blocks")]
+    for cfg, desc in cfgs:
+        r = model_check(f"LruIndRefine/{cfg}", "LruIndRefine.tla", cfg, workers=16, timeout=1500)
+        add_model(cov, cfg[:-4], r, desc + "; properties Refines, RefusalsJustified, IndInvHolds")
+    obligations = [("base", ["--cinit=CInit", "--init=Init", "--inv=IndInv", "--length=0"]),
+                   ("step", ["--cinit=CInit", "--init=IndInit", "--inv=IndInv", "--length=1"])]
+    if tier == "thorough":
+        obligations += [("NoHang", ["--cinit=CInit", "--init=IndInit", "--inv=NoHang", "--length=0"]),
+                        ("SelfEvictionOnlyUnderReservations",
+                         ["--cinit=CInit", "--init=IndInit", "--inv=SelfEvictionOnlyUnderReservations", "--length=0"])]
+    cov.setdefault("unbounded", [])
+    for name, args in obligations:
+        outcome, wall, tail = run_apalache("LruInd.tla", args, timeout=900)
+        if outcome == "error":
+            raise Machinery(f"Apalache refutes obligation {name} of LruInd.tla (a model error, the model is calibrated "
+                            f"against the pinned code):\n{tail}")
+        cov["unbounded"].append({"module": "LruInd.tla", "obligation": name, "tool": "apalache-mc 0.58 " + " ".join(args),
+                                 "outcome": "discharged" if outcome == "ok" else "not discharged (" + tail[-200:].strip() + ")",
+                                 "wall_s": round(wall, 1), "scope": "3 keys, Max / Hard / sizes: all integers"})
+        cov["obligations"] = cov.get("obligations", 0) + 1
+        cov["discharged"] = cov.get("discharged", 0) + (1 if outcome == "ok" else 0)
+        log(f"[model] LruInd {name}: {outcome} in {wall:.1f}s")
 
 
 def replay_half(v, cov, tier):
@@ -293,7 +326,7 @@ def index_family(prop, tier, plans, extra=None):
     rc = v.finish()
     cov["rule"] = "histories are generated from VERIF_SEED; a history counts as non-trivial by the rule its driver states; distinct by operation sequence / seed"
     cov["checker_cmd"] = "tlc MC_Cache.tla (exhaustive) + tlc LruTrace.tla on recorded traces + tlc -simulate CacheReplay.tla replayed by vh sched"
-    write_evidence(prop, tier, "model_checking", cov, time.time() - t0, len(v.violations), INDEX_ASSUME)
+    write_evidence(prop, tier, "model_checking", cov, time.time() - t0, v.new_count, INDEX_ASSUME)
     return rc
 
 
@@ -397,7 +430,7 @@ def case_check(prop, tier, module, cfg, vh_args, desc, assumptions, t0=None, ext
         raise Machinery(f"{prop}: vacuous run ({res['cases']} executions, {res['nontrivial']} non-trivial)")
     log(f"[conf] {args[0]}: {res['cases']} executions ({res['nontrivial']} non-trivial), {len(res.get('violations', []))} violations, {res['_wall_s']:.1f}s")
     rc = v.finish()
-    write_evidence(prop, tier, "model_checking", cov, time.time() - t0, len(v.violations), assumptions)
+    write_evidence(prop, tier, "model_checking", cov, time.time() - t0, v.new_count, assumptions)
     return rc
 
 
@@ -439,7 +472,7 @@ def c10(prop, tier):
     extra.append(("FindMissing_N", r2, "all request lists of length <= 4 over 6 digest classes, batch size 2, no backend"))
     return case_check(prop, tier, "FindMissing.tla", "FindMissing_B.cfg",
                       ["findmissing", "-cases", "{cases}", "-tier", "{tier}", "-seed", "{seed}"],
-                      "all request lists of length <= 4 over 6 digest classes, batch size 2, 2 backend workers, all interleavings; liveness: the request terminates",
+                      "all request lists of length <= 4 over 6 digest classes, batch size 2, 2 backend workers, hand-off queue of capacity 1 (a send on a full queue blocks), all interleavings; liveness: the request terminates",
                       CASE_ASSUME + ["the worker interleaving of the real code is not controlled in the replay; it is explored exhaustively only in the model"],
                       t0=t0, extra_models=extra)
 
@@ -497,7 +530,7 @@ def multi_check(prop, tier, models, drivers, assumptions, checker_cmd):
     if cov["distinct_nontrivial"] < 2:
         raise Machinery(f"{prop}: vacuous run")
     rc = v.finish()
-    write_evidence(prop, tier, "model_checking", cov, time.time() - t0, len(v.violations), assumptions)
+    write_evidence(prop, tier, "model_checking", cov, time.time() - t0, v.new_count, assumptions)
     return rc
 
 
@@ -619,7 +652,7 @@ def c20(prop, tier):
     if tot_cases < 10:
         raise Machinery("C20: vacuous run")
     rc = v.finish()
-    write_evidence(prop, tier, "model_checking", cov, time.time() - t0, len(v.violations),
+    write_evidence(prop, tier, "model_checking", cov, time.time() - t0, v.new_count,
                    ["the format is the one this tree and README describe (casblob.go header comment, FileLocation, objectKey functions); Format.tla is its single statement and every byte of a header used in the experiments comes from it",
                     "independent encodings are produced by the harness with klauspost/compress zstd under six encoder settings; the harness's reader shares no code with casblob.go",
                     "HTTP, S3 (minio client against a local S3-dialect server) and gRPC (a second real server with recording interceptors) backends are driven through the real proxy clients; the Azure endpoint cannot be redirected, its object names are read through a verif-tagged accessor",
@@ -666,7 +699,7 @@ def c08(prop, tier):
 @check("C09")
 def c09(prop, tier):
     models = [
-        ("Restart", "Restart.tla", "Restart_dedup.cfg", "all populations of <= 4 files over 3 keys x 3 sizes (duplicates included) x max_size 1..6 blocks: the loader (Lru.tla's Add, oldest first) leaves exactly the maximal most-recent suffix that fits; index order = access-time order; directory = index", "rs"),
+        ("Restart", "Restart.tla", "Restart_dedup_q.cfg" if tier == "quick" else "Restart_dedup.cfg", "all populations of <= " + ("3" if tier == "quick" else "4") + " files over 3 keys x 4 sizes (0 - an empty value - to 3 blocks; duplicates included) x max_size 1..6 blocks: the loader (Lru.tla's Add, oldest first) leaves exactly the maximal most-recent suffix that fits; index order = access-time order; directory = index", "rs"),
     ]
     drivers = [("restart", ["restart", "-cases", "{rs}", "-tier", "{tier}", "-seed", "{seed}"])]
     return multi_check(prop, tier, models, drivers,
@@ -718,7 +751,7 @@ def bytestream_check(prop, tier):
 def c16(prop, tier):
     t0, cov, v = bytestream_check(prop, tier)
     rc = v.finish()
-    write_evidence(prop, tier, "model_checking", cov, time.time() - t0, len(v.violations),
+    write_evidence(prop, tier, "model_checking", cov, time.time() - t0, v.new_count,
                    CASE_ASSUME + ["a client abort is a stream reset that may overtake messages sent earlier (modelled as ClientGone at any message boundary); the client-side status of an aborted call is not compared",
                                   "abstract payload bytes are concretised as halves of the transport stream; blob sizes 9 B and 70 kB (quick), up to 2 MiB+5 (thorough)"])
     return rc
@@ -754,7 +787,7 @@ def c14(prop, tier):
     log(f"[conf] ingress residue: {res2['cases']} uploads, {len(res2.get('violations', []))} violations, {res2['_wall_s']:.1f}s")
     log(f"[conf] robust: {res['cases']} executions ({res['nontrivial']} non-trivial), {len(res.get('violations', []))} violations, {res['_wall_s']:.1f}s")
     rc = v.finish()
-    write_evidence(prop, tier, "model_checking", cov, time.time() - t0, len(v.violations),
+    write_evidence(prop, tier, "model_checking", cov, time.time() - t0, v.new_count,
                    ["scope: pipeline lifecycle of ByteStream.Write (all interleavings in the model, every script replayed) and structure-level inputs (unset optional sub-messages, ill-formed stored headers and messages, odd names / offsets / headers); arbitrary byte-level fuzzing of the parsers is not part of this technique",
                     "a crash is observed from outside: the server code runs in a child process of the harness",
                     "after every request: no goroutine inside a handler or request-scoped cache helper, no descriptor into the cache directory, reserved = 0"])
@@ -790,7 +823,7 @@ def c15(prop, tier):
             raise Machinery("C15: nothing executed")
     cov["checker_cmd"] = "tlc Keyspace.tla (4 configurations) + vh keyspace"
     rc = v.finish()
-    write_evidence(prop, tier, "model_checking", cov, time.time() - t0, len(v.violations),
+    write_evidence(prop, tier, "model_checking", cov, time.time() - t0, v.new_count,
                    CASE_ASSUME + ["instance names come from a catalogue (nested, segments named ac / cas / blobs / uploads, unicode, spaces); names that are not path-clean are excluded as documented",
                                   "the same 64-hex key is used in all namespaces of a history; the restart projection of the key spaces is covered by C09's populations"])
     return rc
